@@ -29,7 +29,13 @@ class SimStorageError(OSError):
     pass
 
 
+class SimBaseFault(BaseException):
+    """A failure that is not an ``Exception`` (like CancelledError / KeyboardInterrupt raised inside a
+    callback on its own, or an application-defined BaseException)."""
+
+
 EXC_CLASSES = {
+    "SimBaseFault": SimBaseFault,
     "SimFault": SimFault,
     "SimLookup": SimLookup,
     "SimValue": SimValue,
